@@ -26,7 +26,7 @@ use rustc_hir::def::DefKind;
 use rustc_hir::def_id::{DefId, LocalDefId, LOCAL_CRATE};
 use rustc_interface::interface;
 use rustc_middle::mir::{self, *};
-use rustc_middle::ty::print::{with_no_trimmed_paths, with_resolve_crate_name};
+use rustc_middle::ty::print::{with_no_trimmed_paths, with_no_visible_paths, with_resolve_crate_name};
 use rustc_middle::ty::{self, GenericArgsRef, Instance, InstanceKind, Ty, TyCtxt, TypingEnv};
 use rustc_middle::util::Providers;
 use rustc_session::Session;
@@ -103,10 +103,10 @@ struct Cx<'tcx> {
 }
 
 fn path_of(tcx: TyCtxt<'_>, d: DefId) -> String {
-    with_resolve_crate_name!(with_no_trimmed_paths!(tcx.def_path_str(d)))
+    with_resolve_crate_name!(with_no_visible_paths!(with_no_trimmed_paths!(tcx.def_path_str(d))))
 }
 fn ty_str<'tcx>(t: Ty<'tcx>) -> String {
-    with_resolve_crate_name!(with_no_trimmed_paths!(t.to_string()))
+    with_resolve_crate_name!(with_no_visible_paths!(with_no_trimmed_paths!(t.to_string())))
 }
 
 impl<'tcx> Cx<'tcx> {
@@ -201,7 +201,7 @@ impl<'tcx> Cx<'tcx> {
                     if of_trait {
                         let tr = tcx.impl_trait_ref(parent).instantiate_identity().skip_norm_wip();
                         j.key("impl_trait").str(&path_of(tcx, tr.def_id));
-                        j.key("impl_trait_full").str(&with_resolve_crate_name!(with_no_trimmed_paths!(tr.to_string())));
+                        j.key("impl_trait_full").str(&with_resolve_crate_name!(with_no_visible_paths!(with_no_trimmed_paths!(tr.to_string()))));
                     }
                 }
                 DefKind::Trait => {
@@ -264,6 +264,18 @@ fn extract<'tcx>(tcx: TyCtxt<'tcx>, crate_name: &str, out_dir: &str) {
         extern_fns: Vec::new(),
         sm_files: HashMap::new(),
     };
+    // Force MIR construction of bodies no query has asked for yet (never the case after a
+    // full analysis without incremental compilation, but cheap to guarantee).
+    {
+        let have: std::collections::HashSet<LocalDefId> = BODIES.lock().unwrap().iter().map(|x| x.0).collect();
+        for def in tcx.hir_body_owners() {
+            if matches!(tcx.def_kind(def), DefKind::Fn | DefKind::AssocFn | DefKind::Closure) && !have.contains(&def) {
+                let _ = std::panic::catch_unwind(std::panic::AssertUnwindSafe(|| {
+                    let _ = tcx.mir_built(def);
+                }));
+            }
+        }
+    }
     let bodies: HashMap<LocalDefId, usize> = BODIES.lock().unwrap().iter().cloned().collect();
     let mut j = J::new();
     j.obj_begin();
@@ -746,6 +758,24 @@ fn rvalue<'tcx>(cx: &mut Cx<'tcx>, j: &mut J, body: &Body<'tcx>, tenv: TypingEnv
             j.key("k").str("discr");
             j.key("p");
             place(cx, j, body, p);
+            let pt = p.ty(&body.local_decls, tcx).ty;
+            if let ty::Adt(adt, _) = pt.kind() {
+                if adt.is_enum() {
+                    j.key("adt").str(&path_of(tcx, adt.did()));
+                    j.key("variants").arr_begin();
+                    for (vi, d) in adt.discriminants(tcx) {
+                        j.arr_begin();
+                        if d.val > i128::MAX as u128 {
+                            j.str(&format!("{}", d.val));
+                        } else {
+                            j.num(d.val as i128);
+                        }
+                        j.str(adt.variant(vi).name.as_str());
+                        j.arr_end();
+                    }
+                    j.arr_end();
+                }
+            }
         }
         Rvalue::Aggregate(ak, ops) => {
             j.key("k").str("agg");
@@ -1126,7 +1156,7 @@ fn dump_items<'tcx>(cx: &mut Cx<'tcx>, j: &mut J) {
         if let Some(tr) = tcx.impl_opt_trait_ref(did) {
             let tr = tr.instantiate_identity().skip_norm_wip();
             j.key("trait").str(&path_of(tcx, tr.def_id));
-            j.key("trait_full").str(&with_resolve_crate_name!(with_no_trimmed_paths!(tr.to_string())));
+            j.key("trait_full").str(&with_resolve_crate_name!(with_no_visible_paths!(with_no_trimmed_paths!(tr.to_string()))));
         }
         j.key("module").str(&path_of(tcx, tcx.parent_module_from_def_id(d).to_def_id()));
         j.key("items").arr_begin();
